@@ -96,9 +96,15 @@ def run(ctx):
                 raise AnalysisError('Dataset.project: unrecognised return `%s`' % U(r))
             n_ds += 1
             _, F, D, W = alt
-            ok_df = F is not None and F[0] == 'select' and F[1] == ('frame', 'self.df')
+            # the constructor re-selects the frame's columns by name in the order of the domain it is given (column-order rule),
+            # so what matters is the frame the columns are taken from; an intermediate by-name selection changes nothing
+            root = F
+            while root is not None and root[0] == 'select':
+                root = root[1]
+            ok_df = root == ('frame', 'self.df')
             ok_dom = D is not None and D[0] == 'project' and D[1] == ('dom', 'self.domain')
-            same = ok_df and ok_dom and F[2] == D[2]
+            same = ok_df and ok_dom
+            F = ('select', root, D[2]) if same else F
             ctx.ob('project-consistent', proj, r, same,
                    'frame `%s`, domain `%s`: columns and domain must be selected by one and the same list, from self.df / self.domain'
                    % (show(F) if F else None, show(D) if D else None))
@@ -137,7 +143,9 @@ def run(ctx):
     ctx.ob('histogram', dv, h, sample == ('values', ('frame', 'self.df')),
            'the sample must be the dataset\'s own (domain-ordered) frame values; got `%s`' % (show(sample) if sample else None),
            construct='sample of histogramdd')
-    ctx.ob('histogram', dv, h, bins == ('edges', ('shape', ('dom', 'self.domain'))),
+    rng_ = kw.get('range', args[2] if len(args) > 2 else None)
+    by_count = bins == ('shape', ('dom', 'self.domain')) and rng_ == ('ranges0', ('shape', ('dom', 'self.domain')))
+    ctx.ob('histogram', dv, h, bins == ('edges', ('shape', ('dom', 'self.domain'))) or by_count,
            'bin edges must be 0..n (n+1 integer edges) for every attribute size n of self.domain.shape, in domain order; got `%s`'
            % (show(bins) if bins else None), construct='bins of histogramdd')
     ctx.ob('histogram', dv, h, wts == ('weights', 'self'),
